@@ -44,6 +44,7 @@ def toOp (o : HOp) (tag : String) (mem : Rec) : Op Rec :=
   | "app" => .update fun r => { r with hist := r.hist ++ [tag], detail := if o.d != "" then o.d else r.detail }
   | "basic" => .update fun r => { r with state := o.st, detail := o.d, size := if o.sz ≥ 0 then o.sz else r.size }
   | "stdout" => .update fun r => { r with size := o.sz }
+  | "clear" => .update fun r => { r with hist := [] }
   | "save" => .save mem
   | _ => .load
 
